@@ -25,6 +25,11 @@ use starknet_crypto::Felt;
 //
 // Now we can compute p_{n_bits} and q_{n_bits} in just n_bits recursive steps and we are done.
 pub fn get_diluted_product(n_bits: Felt, spacing: Felt, z: Felt, alpha: Felt) -> Felt {
+    // A single diluted value: the recurrence stops at r_1 = 1. (The loop below starts from the
+    // state of n_bits = 1 and would otherwise count up to n_bits - 1 modulo the field prime.)
+    if n_bits == FELT_0 {
+        return FELT_1;
+    }
     let diff_multiplier = FELT_2.pow_felt(&spacing);
     let mut diff_x: Felt = diff_multiplier - FELT_2;
     let mut x: Felt = FELT_1;
